@@ -201,6 +201,43 @@ def check_hex(byting, b):
     return guarded(body, "C40.Props.unhexify_hexify", inp)
 
 
+HEXDIGITS = "0123456789abcdefABCDEF"
+
+
+def hex_texts(b):
+    """the hex digits of b written with separators / prefixes: unhexify's documented domain
+    (non-hex characters are stripped, an odd number of digits is left-padded with 0)"""
+    h = bytes(b).hex()
+    out = ["0x" + h, h.upper(), " " + h, h + "\n"]
+    for sep in (":", " ", "\n", "-", "0x"):
+        for pos in range(0, len(h) + 1):
+            out.append(h[:pos] + sep + h[pos:])                  # one separator at every position
+        out.append(sep.join(h[i:i + 2] for i in range(0, len(h), 2)))   # between all bytes
+    if h:
+        out += [h[1:], ":" + h[1:], h[1:] + " x", h[:1] + ":" + h[1:]]  # odd digit counts
+    return out
+
+
+def check_hex_text(byting, text):
+    """unhexify/unhexize of arbitrary text = bytes of its hex digits ('0'-padded on the left if odd)"""
+    inp = {"h": text}
+
+    def body():
+        digits = "".join(c for c in text if c in HEXDIGITS)
+        if len(digits) % 2:
+            digits = "0" + digits
+        want = bytes.fromhex(digits)
+        got = byting.unhexify(text)
+        expect(bytes(got) == want, observed=bytes(got).hex(), expected=want.hex(), hex_digits_of_text=digits,
+               what="unhexify(text) == bytes of the hex digits of text", contradicts="C40.Props.unhexify_any_text")
+        got2 = byting.unhexize(text)
+        expect(bytes(got2) == want, observed=bytes(got2).hex(), expected=want.hex(), hex_digits_of_text=digits,
+               what="unhexize(text) == bytes of the hex digits of text", contradicts="C40.Props.unhexify_any_text")
+        expect(byting.hexify(got) == digits.lower(), observed=byting.hexify(got), expected=digits.lower(),
+               what="hexify(unhexify(text)) == normalised digits", contradicts="C40.Props.unhexify_any_text")
+    return guarded(body, "C40.Props.unhexify_any_text", inp)
+
+
 def check_sign(byting, x, n):
     inp = {"x": x, "n": n}
 
@@ -269,6 +306,17 @@ def search(byting, rng, W, nrandom, count=None):
         f = check_hex(byting, [x]) or check_hex(byting, [x, 255 - x, (x * 7) % 256])
         if f:
             return done(f)
+    # hex text with separators / prefixes, smallest first
+    for text in ["", ":", "0", "0:", ":0", "0x", "x0", "1:2", "0x1f", "01:02", "de ad be ef", "a b", "g", "0xg1"]:
+        f = check_hex_text(byting, text)
+        if f:
+            return done(f)
+    for b in ([0], [1, 2], [0xde, 0xad, 0xbe], [255, 0, 16, 1]):
+        for text in hex_texts(b):
+            f = check_hex_text(byting, text)
+            if f:
+                return done(f)
+    note("hex-text", {"shapes": "separators ':' ' ' newline '-' '0x' at every position, prefixes, odd digit counts"})
     for n in range(1, 10):
         for x in range(2 ** n):
             f = check_sign(byting, x, n)
@@ -294,6 +342,8 @@ def search(byting, rng, W, nrandom, count=None):
         if not f and k % 4 == 0:
             f = check_bin(byting, rng.randrange(2 ** 40), rng.randint(0, 48))
             f = f or check_hex(byting, [rng.randrange(256) for _ in range(rng.randint(0, 20))])
+            f = f or check_hex_text(byting, "".join(rng.choice(HEXDIGITS * 2 + ": -x\n,.gG")
+                                                    for _ in range(rng.randint(0, 14))))
             n = rng.randint(1, 80)
             f = f or check_sign(byting, rng.randrange(2 ** n), n)
         if f:
